@@ -22,3 +22,6 @@ func TestC13Closure(t *testing.T) { RunC13Closure(t) }
 func TestC15(t *testing.T) { C15.Run(t) }
 func TestC19(t *testing.T) { C19.Run(t) }
 func TestC14(t *testing.T) { C14.Run(t) }
+func TestC16(t *testing.T)          { RunC16(t) }
+func FuzzMessageCodec(f *testing.F) { fuzzMessageCodec(f) }
+func FuzzBurnCodec(f *testing.F)    { fuzzBurnCodec(f) }
